@@ -92,6 +92,7 @@ def case_steps(ctx, kind, nx, param, k):
     scr, turb, stub = make_screen(kind, nx, param, ps, r0, L0, seed=stream)
     ctx.paths += 1
     rp = lambda m: harness.pristine_call(replay_steps, kind, nx, param, k)
+    ctx.fallback = rp
     N = nx
     nxs = int(scr.nx_size)
     ctx.bounds["internal_nx"] = nxs
@@ -245,6 +246,9 @@ def build_cases(tier):
         L += [("fried", 7, 2), ("fried", 10, 1), ("vk", 6, 3), ("fried", 5, 4)]
     for kind, nx, param in L:
         cases.append(("steps/%s/nx=%d/param=%d" % (kind, nx, param), case_steps, dict(kind=kind, nx=nx, param=param, k=k)))
+    # histories longer than the internal working length (a recycled buffer must not show)
+    for kind, nx, param, kk in ([("vk", 2, 1, 5), ("fried", 2, 1, 6)] if tier == "quick" else [("vk", 2, 1, 6), ("fried", 2, 1, 8), ("vk", 3, 2, 7), ("fried", 3, 1, 9)]):
+        cases.append(("steps-long/%s/nx=%d/param=%d/k=%d" % (kind, nx, param, kk), case_steps, dict(kind=kind, nx=nx, param=param, k=kk)))
     hi = 300 if tier == "quick" else 4096
     cases.append(("allowed-size/symbolic-nx<=%d" % hi, case_allowed, dict(hi=hi)))
     cases.append(("allowed-size/crosshair<=%d" % (70 if tier == "quick" else 1030), case_crosshair, dict(hi=70 if tier == "quick" else 1030)))
